@@ -16,7 +16,9 @@
 //!                    to completion: two scenario spans are then nested, the outer one must win),
 //!                    "leak": bool (a clone of the step's span is held beyond the step's end and dropped inside a step of
 //!                    another scenario: the span outlives its future, the close arrives AFTER the subscription)}]}]}
-//! History records: ["cb", scenario, step, attempt, span] ["emit", scenario, message id, span] ["close", span] ["sub", span] ["fwd"]
+//! History records: ["cb", scenario, step, attempt, span] ["emit", scenario, message id, span(, "off")] ["close", span] ["sub", span] ["fwd"]
+//!                  ["newspan", span, parent|null] ["spansid", span, scenario id] ["fmt", innermost scope span|null, resolved scenario id|null]
+//!                  ["reg", scenario id, scenario] ["regretry", scenario id, [current, left]|null] ["unreg", scenario id]
 //!                  ["ev", <event>] where a Log event is ["Scen", f, r, s, retries, ["LogMsg", message id | null]]
 
 #[path = "../../harness/src/events.rs"]
@@ -175,7 +177,8 @@ fn emit_off_thread(sid: u64, span: u64) {
         s.next_msg += 1;
         s.next_msg
     });
-    verif_trace::record("emit", sid * 1_000_000 + m, span);
+    // (own kind: the event is formatted on the helper thread, whose trace points are not part of this history)
+    verif_trace::record("emitoff", sid * 1_000_000 + m, span);
     let warn = ST.with(|s| s.borrow().warn);
     let parent = tracing::Span::current();
     let dispatch = tracing::dispatcher::get_default(Clone::clone);
@@ -502,10 +505,19 @@ fn main() {
             in_nested = kind == "nb";
             continue;
         }
-        if in_nested {
+        // ... except what the tracing layers saw of it: its spans and the formatting of its message
+        if in_nested && !matches!(kind, "newspan" | "spansid" | "fmt") {
             continue;
         }
+        let opt = |x: u64| if x == 0 { Value::Null } else { json!(x) };
         match kind {
+            "emitoff" => hist.push(json!(["emit", a / 1_000_000, a % 1_000_000, b, "off"])),
+            "newspan" => hist.push(json!(["newspan", a, opt(b)])),
+            "spansid" => hist.push(json!(["spansid", a, b])),
+            "fmt" => hist.push(json!(["fmt", opt(a), if b == 0 { Value::Null } else { json!(b - 1) }])),
+            "reg" => hist.push(json!(["reg", a, b])),
+            "regretry" => hist.push(json!(["regretry", a, if b == 0 { Value::Null } else { json!([(b - 1) / 1000, (b - 1) % 1000]) }])),
+            "unreg" => hist.push(json!(["unreg", a])),
             "ev" => {
                 hist.push(json!(["ev", evs.get(next).cloned().unwrap_or(json!(["MISSING"]))]));
                 next += 1;
